@@ -410,6 +410,20 @@ def run_check(pid, tier, seed, replay=None):
         printed.append(line)
         return path
 
+    if replay and str(replay).endswith(".broken"):
+        # the replay of a "no-failing-input-found" report names theorems, not operations: re-check them
+        lean = lean_stage(pid, P)
+        named = [l.split()[1] for l in open(replay) if l.startswith("theorem ")]
+        still = [t for t in named if t in lean["broken"]] or lean["broken"]
+        for t in still:
+            print(f"theorem {t}: does not check against the current sources")
+        if still:
+            for p_ in lean["problems"][:10]:
+                print(p_)
+            print(f"VIOLATION property={pid} replay={replay} no-failing-input-found")
+            return 1
+        print("replay: every named theorem checks again")
+        return 0
     if replay:
         container, ops = vlib.read_replay(replay)
         vlib.build_lean()
